@@ -1,0 +1,7 @@
+//go:build !verif
+// +build !verif
+
+package decimal
+
+// verifHit is a no-op unless built with -tags verif (see verif_hooks.go).
+func verifHit(int) {}
